@@ -724,6 +724,10 @@ def run(chk, replay=None):
         if sym.has(S.Integral) or sym.has(S.FourierTransform) or sym.has(S.InverseFourierTransform):
             r['status'] = 'unevaluated'
             return r
+        if sym.has(S.zoo) or sym.has(S.nan):
+            # a "closed form" with complex infinity / nan in it is not a function at all
+            r['status'], r['verdict'], r['point'], r['model'] = 'violation', 'false result contains zoo/nan', {}, 'n/a'
+            return r
         verdict = None
         for attempt in range(6):
             pi0, dt0, x0 = sample_point(lrng)
@@ -778,6 +782,9 @@ def run(chk, replay=None):
         r['forward'], r['back'] = str(f['sym'])[:300], str(sym)[:300]
         if sym.has(S.Integral):
             r['status'] = 'unevaluated'
+            return r
+        if sym.has(S.zoo) or sym.has(S.nan):
+            r['status'], r['verdict'], r['point'] = 'violation', 'false result contains zoo/nan', {}
             return r
         for attempt in range(6):
             pi0, dt0, x0 = sample_point(lrng)
@@ -1209,7 +1216,38 @@ def run(chk, replay=None):
                                    'transform of an undefined function is not the expected capitalised function')
         except Exception as ex:   # noqa
             chk.count('undefined-functions', 'error:' + type(ex).__name__)
-    for txt in ['x(t)*y(t)', 'x(2*t)', 'x(t)/t', 'Integral(x(t - tau), (tau, 0, oo))', 'Integral(x(tau)*y(t - tau), (tau, 0, t))', 'x(t)*t*y(t)',
+    # a one-sided GROWING exponential has no Fourier transform (the integral diverges): any closed form is wrong
+    for txt in ['exp(t)*u(t)', 'exp(2*t)*u(t)', '3*exp((1+2*j)*t)*u(t)', 'exp(-t)*u(-t)']:
+        try:
+            got = limited(lambda: mk(txt, 't')(LV['f'])).sympy
+            bad = not (got.has(S.Integral) or got.has(S.FourierTransform))
+        except Exception as ex:   # noqa
+            got, bad = None, False
+        chk.count('growing-exponential', 'closed-form-returned' if bad else 'refused')
+        chk.case(('growing', txt), True)
+        if bad:
+            counterexamples[0] += 1
+            chk.counterexample({'kind': 'transform', 'direction': 'fwd', 'variable': 'f', 'atom': 'expu', 'growing': True},
+                               {'input': {'expression': txt, 'direction': 'fwd', 'variable': 'f'}, 'lcapy': str(got)[:200],
+                                'spec': 'the defining integral diverges (the exponential grows on the side where the step is on): no transform exists'},
+                               'a closed-form Fourier transform is returned for a growing one-sided exponential')
+    # running integral of an undefined function: int_0^oo x(t - tau) dtau = (x * u)(t)  <->  X(f) (1/(j 2 pi f) + delta(f)/2)
+    try:
+        got = limited(lambda: mk('Integral(x(t - tau), (tau, 0, oo))', 't')(LV['f'])).sympy
+        want = Xf(fs_) / (S.I * 2 * S.pi * fs_) + Xf(0) * S.DiracDelta(fs_) / 2
+        alt = Xf(fs_) / (S.I * 2 * S.pi * fs_) + Xf(fs_) * S.DiracDelta(fs_) / 2
+        okk = S.simplify(got - want) == 0 or S.simplify(got - alt) == 0
+        chk.count('undefined-functions', 'running-integral:' + ('as-expected' if okk else 'differs'))
+        chk.case(('undef', 'running-integral'), True)
+        if not okk:
+            counterexamples[0] += 1
+            chk.counterexample({'kind': 'undef-function', 'sub': 'running-integral', 'direction': 'fwd'},
+                               {'input': {'expression': 'Integral(x(t - tau), (tau, 0, oo))', 'from': 't', 'to': 'f'}, 'lcapy': str(got),
+                                'spec': 'convolution with the unit step: X(f)/(j 2 pi f) + X(0) DiracDelta(f)/2'},
+                               'Fourier transform of the running integral of an undefined function is wrong')
+    except Exception as ex:   # noqa
+        chk.count('undefined-functions', 'running-integral:error:' + type(ex).__name__)
+    for txt in ['x(t)*y(t)', 'x(2*t)', 'x(t)/t', 'Integral(x(tau)*y(t - tau), (tau, 0, t))', 'x(t)*t*y(t)',
                 '1/cosh(t)', '1/sinh(t)', 'tanh(t)', 't/(2*t - 3*j)', 't/(3*j - 2*t)', 'exp(j*t**2)', 'rampstep(t)', 't*DiracDelta(t, 1)',
                 'sin(f*t)', 'Piecewise((exp(-t), t >= 0))', '1/(t**2 + 1)', 't/(t**2 + 4)']:
         try:
